@@ -81,15 +81,29 @@ def obligations(tier):
     names = 3
     obs = []
     # Part A: state classes, sequences of API calls from a fresh state
-    kmax = 3 if quick else 4
+    kmax = 4 if quick else 5
     for k in range(1, kmax + 1):
         for first in range(0, 6):
-            obs.append(_api_ob(k, first, names, T))
+            if k >= 4 and first != 0:
+                continue        # longer histories: START first (anything else is rejected or a no-op on a fresh state)
+            if k <= 3:
+                obs.append(_api_ob(k, first, names, T))
+            else:
+                for second in range(9):
+                    ob = _api_ob(k, first, names, T)
+                    ob.id += f'.second{second}'
+                    ob.pre = [p for p in ob.pre if not p.startswith('0 <= o1 ')]
+                    ob.params = ', '.join(p for p in ob.params.split(', ') if p != 'o1: int')
+                    parts = ob.args.split(', ')
+                    parts[4] = str(second)
+                    ob.args = ', '.join(parts)
+                    ob.bound += f', second op kind {second}'
+                    obs.append(ob)
     # Part B: compile layer + server protocol + faults
     if quick:
-        combos = [(0, 1), (0, 2), (1, 1)]
+        combos = [(0, 1), (0, 2), (0, 3), (1, 1), (1, 2), (2, 1)]
     else:
-        combos = [(d, k) for d in range(0, 3) for k in range(1, 4)]
+        combos = [(d, k) for d in range(0, 4) for k in range(1, 5) if d + k <= 6]
     for d, k in combos:
         for first in range(0, 9):
             obs.append(_script_ob(d, k, first, names, T))
@@ -120,9 +134,9 @@ def run(tier, only=''):
                      'operation the abstraction of the real state (_current, _state0, _savepoints) is compared with a '
                      'PostgreSQL-style transaction model, and every statement must be compiled against the state the '
                      'model exposes at that point.'),
-        bounds={'part A': 'sequences of <= %d API operations from a fresh state' % (3 if tier == 'quick' else 4),
-                'part B': ('START + (recipe prefix, free statements) in {(0,1),(0,2),(1,1)}' if tier == 'quick' else
-                           'START + recipe prefix of <= 2 savepoints + <= 3 free statements') +
+        bounds={'part A': 'sequences of <= %d API operations from a fresh state' % (4 if tier == 'quick' else 5),
+                'part B': ('START + (recipe prefix, free statements) in {(0,1),(0,2),(0,3),(1,1),(1,2),(2,1)}' if tier == 'quick' else
+                           'START + recipe prefix of d <= 3 savepoints + k <= 4 free statements, d + k <= 6') +
                           ' (optional alias/config/DDL change before each prefix savepoint; backend-failure flags on free statements)',
                 'savepoint names': 3, 'id counter start': 1000},
         stubs=['dbstate.time (monotonic_ns returns the harness-chosen symbolic counter start)',
